@@ -247,6 +247,33 @@ func (e *Exec) buildCex(label string, negated *Term) map[string]any {
 	for _, h := range hashes {
 		add(h)
 	}
+	// applications of uninterpreted functions to plain symbols (stub decisions such as msg.signer0(m))
+	var blockedApps []*Term
+	for _, u := range all {
+		if u.Op == "bank.blocked" {
+			blockedApps = append(blockedApps, u)
+			add(u)
+			add(u.Args[0])
+		}
+	}
+	var appTerms []*Term
+	for _, u := range all {
+		if u.Op == "sym" || u.Op == "const" || u.Op == "strlit" || builtinOps[u.Op] || len(u.Args) == 0 || len(u.Args) > 3 {
+			continue
+		}
+		okArgs := true
+		for _, a := range u.Args {
+			if a.Op != "sym" && a.Op != "const" && a.Op != "strlit" {
+				okArgs = false
+			}
+		}
+		if okArgs && !isConstructor(u) && !isHashOp(u.Op) {
+			appTerms = append(appTerms, u)
+		}
+	}
+	for _, u := range appTerms {
+		add(u)
+	}
 	r, vals := e.sol.CheckModel(negated, want)
 	if r != "sat" {
 		return nil
@@ -309,9 +336,25 @@ func (e *Exec) buildCex(label string, negated *Term) map[string]any {
 		}
 		stores[r.Coll] = append(stores[r.Coll], map[string]any{"key": ks, "present": r.Present, "val": e.valueJSON(r.Val, memo)})
 	}
+	var aj []any
+	for _, u := range appTerms {
+		var names []any
+		for _, a := range u.Args {
+			if a.Op == "sym" {
+				names = append(names, a.Str)
+			} else {
+				names = append(names, a.SMT())
+			}
+		}
+		aj = append(aj, map[string]any{"op": u.Op, "args": names, "v": vals[u.SMT()], "sort": u.S.SMT()})
+	}
+	var bj []any
+	for _, u := range blockedApps {
+		bj = append(bj, map[string]any{"id": vals[u.Args[0].SMT()], "v": vals[u.SMT()]})
+	}
 	return map[string]any{
 		"harness": e.harness, "label": label, "decisions": e.decisions,
-		"syms": syms, "ctors": cj, "selects": sj, "stores": stores,
+		"syms": syms, "ctors": cj, "selects": sj, "stores": stores, "apps": aj, "blocked": bj,
 	}
 }
 
